@@ -17,6 +17,11 @@ Inductive case :=
 | CIsNum (which : Z) (args : list jv) (obs : Z)          (* 0 isNaN, 1 isFinite; obs 0/1 *)
 | CStr (fns : list Z) (input : list Z) (obs : Z * list Z)
 | CThrow (fn : Z) (vals : list Z) (k kind : Z) (obs : Z * Z)
+| CCount (fn : Z) (vals : list Z) (obs : Z)
+  (* fn (Math id or 100.. as for CThrow) called with |vals| arguments, each an object that logs its
+     conversion (valueOf for ToNumber, toString for ToString) and yields vals[i]: obs = how many
+     conversions ran, provided they ran once each, left to right (else a negative marker).
+     15.8.2 / 15.1.2-3: ToNumber / ToString is applied once to each argument the function uses. *)
 | CStrId (fns : list Z) (input : list Z) (ctx : Z) (obs : Z * Z)
 | CThrowId (fn : Z) (vals : list Z) (k kind ctx : Z) (obs : Z * Z).
   (* class IDENTITY of the error a call raises, in runtime ctx (0 a fresh runtime, 1 a Copy() of a
@@ -130,6 +135,7 @@ Definition verdict (c : case) : Z * Z :=
       end
   | CStr fns input obs =>
       judge res_eqb obs (chain apply_model fns input) (chain apply_spec fns input) (chain_class fns input)
+  | CCount fn vals obs => judge Z.eqb obs (conv_model fn vals) (conv_spec fn vals) 10
   | CStrId fns input _ obs =>
       judge zz_eqb obs (fst (chain apply_model fns input), 1) (fst (chain apply_spec fns input), 1)
             (chain_class fns input)
